@@ -15,10 +15,10 @@ BOUNDS = {
               "normal_form_text": "<= 4 characters", "dates": "every valid calendar date/time 1000-01-01..9999-12-31 at second resolution, UTC-aware (12 months) and naive (2 months quick / 12 thorough)"},
     "thorough": {"values": "<= 5 characters", "normal_form_text": "<= 5 characters"},
 }
-STUBS = ["base64.b64encode / b64decode on solver bytes: exact bit-level model (harness/b64model.py), validated natively on every path", "HTTP dates: the value is a datetime subclass whose calendar fields are solver ints and whose timetuple() is computed with the proleptic Gregorian weekday formula; datetime.datetime(...) on solver ints is a contract stub (range checks incl. month lengths) returning an object that carries the fields; email.utils.format_datetime / parsedate_to_datetime / _parsedate_tz are interpreted from the stdlib source. Each path is replayed natively with real datetime objects"]
+STUBS = ["datetime.astimezone between fixed offsets: calendar arithmetic with carries (harness/dtmodel.shift_fields), validated natively against the real datetime on every path", "base64.b64encode / b64decode on solver bytes: exact bit-level model (harness/b64model.py), validated natively on every path", "HTTP dates: the value is a datetime subclass whose calendar fields are solver ints and whose timetuple() is computed with the proleptic Gregorian weekday formula; datetime.datetime(...) on solver ints is a contract stub (range checks incl. month lengths) returning an object that carries the fields; email.utils.format_datetime / parsedate_to_datetime / _parsedate_tz are interpreted from the stdlib source. Each path is replayed natively with real datetime objects"]
 ASSUMPTIONS = ["values exclude CR/LF; option-header values additionally exclude the literal %22 (documented to decode to a quote)",
                "ETags are non-empty and contain no double quote", "0 <= start < stop for ranges, as the property states"]
-OUTSIDE = ["datetimes with a non-UTC offset (datetime.astimezone: C), If-Range dates", "code points above U+00FF", "longer values"]
+OUTSIDE = ["tzinfo objects other than fixed offsets (zoneinfo, custom classes); offsets are enumerated, not solver-quantified", "code points above U+00FF", "longer values"]
 
 NOCRLF = [10, 13]
 
@@ -330,7 +330,13 @@ def body_basic_auth(I, X, nu=1, npw=2):
     return ok, {"header": hdr}
 
 
-def body_http_date(I, X, aware=True, month=1):
+def _tz(offset):
+    """'+0530' -> a real fixed-offset tzinfo"""
+    sec = (int(offset[1:3]) * 3600 + int(offset[3:5]) * 60) * (1 if offset[0] == "+" else -1)
+    return _dtmod.timezone(_dtmod.timedelta(seconds=sec)), sec
+
+
+def body_http_date(I, X, aware=True, month=1, offset=None, via="http_date"):
     """http_date -> parse_date returns the datetime (second resolution, UTC; naive input is
     taken as UTC), for every valid calendar date in the years 1000..9999"""
     from werkzeug import http
@@ -340,17 +346,37 @@ def body_http_date(I, X, aware=True, month=1):
     d = X.int("d", 1, 31)
     hh, mi, ss = X.int("hh", 0, 23), X.int("mi", 0, 59), X.int("ss", 0, 59)
     valid_day(X, y, m, d)
+    tz, off = (_dtmod.timezone.utc if aware else None), 0
+    if offset is not None:
+        # a datetime in another fixed offset: the header carries the same instant in GMT
+        tz, off = _tz(offset)
+        # converting the first / last day of the calendar to UTC overflows datetime itself
+        X.assume(pand(y >= 1001, y <= 9998))
     if X.symbolic:
-        dt = SymDatetime((y, m, d, hh, mi, ss), _dtmod.timezone.utc if aware else None)
+        dt = SymDatetime((y, m, d, hh, mi, ss), tz)
     else:
-        dt = _dtmod.datetime(y, m, d, hh, mi, ss, tzinfo=_dtmod.timezone.utc if aware else None)
-    text = I.call(http.http_date, (dt,))
-    back = I.call(http.parse_date, (text,))
+        dt = _dtmod.datetime(y, m, d, hh, mi, ss, tzinfo=tz)
+    if via == "if_range":
+        # IfRange(date=...).to_header() -> parse_if_range_header: the date, and no entity-tag
+        from werkzeug.datastructures import IfRange
+
+        text = I.call(IfRange(date=dt).to_header, ())
+        ir = I.call(http.parse_if_range_header, (text,))
+        back = ir.date if ir.etag is None else None
+    else:
+        text = I.call(http.http_date, (dt,))
+        back = I.call(http.parse_date, (text,))
     if back is None:
         return False, {"text": text, "back": None}
     f = getattr(back, "fields", None) or (back.year, back.month, back.day, back.hour, back.minute, back.second)
     tz_ok = isinstance(back.tzinfo, _dtmod.tzinfo) and back.tzinfo.utcoffset(None) == _dtmod.timedelta(0)
-    ok = pand(tz_ok, *[peq(a, b) for a, b in zip(f, (y, m, d, hh, mi, ss))])
+    if offset is None:
+        ok = pand(tz_ok, *[peq(a, b) for a, b in zip(f, (y, m, d, hh, mi, ss))])
+    else:
+        # the same instant expressed in UTC (calendar arithmetic with carries, no datetime involved)
+        from harness.dtmodel import shift_fields
+
+        ok = pand(tz_ok, *[peq(a, b) for a, b in zip(f, shift_fields((y, m, d, hh, mi, ss), -off))])
     # RFC 9110 IMF-fixdate shape: 29 characters, day name and ' GMT'
     ok = pand(ok, plen(text) == 29, peq(text[-4:], " GMT"), peq(text[3:5], ", "))
     return ok, {"text": text}
@@ -379,6 +405,16 @@ def obligations(tier, seed):
             out.append({"name": f"http_date[aware={aware},month={month}]", "body": "body_http_date", "params": {"aware": aware, "month": month},
                         "opts": {"budget_s": 900, "ctx": {"bv_ints": True, "max_digits": 6}}, "witness": aware and month == 3})
     quick = tier == "quick"
+    # datetimes in another fixed offset (the header carries the same instant in GMT), and dates
+    # through IfRange(date=...).to_header() -> parse_if_range_header
+    for month, offset in ([(2, "+0530"), (12, "-1100"), (1, "+1400")] if quick else
+                          [(mo, of) for mo in (1, 2, 3, 6, 12) for of in ("+0530", "-1100", "+1400", "-0001", "+0000", "-2359")]):
+        out.append({"name": f"http_date[offset={offset},month={month}]", "body": "body_http_date", "params": {"aware": True, "month": month, "offset": offset},
+                    "opts": {"budget_s": 900, "ctx": {"bv_ints": True, "max_digits": 6}}})
+    for month, offset in ([(2, None), (12, "+0130")] if quick else [(mo, of) for mo in (1, 2, 7, 12) for of in (None, "+0130", "-0800")]):
+        out.append({"name": f"if_range_date[offset={offset},month={month}]", "body": "body_http_date",
+                    "params": {"aware": True, "month": month, "offset": offset, "via": "if_range"},
+                    "opts": {"budget_s": 900, "ctx": {"bv_ints": True, "max_digits": 6}}})
     N = [0, 1, 2, 3] if quick else [0, 1, 2, 3, 4, 5]
     ctx = {"max_cp": 0xFF, "bv_ints": True}
 
